@@ -139,7 +139,9 @@ func TestVerif_C41Sched(t *testing.T) {
 		perms := c41Perms(len(nodes))
 		if len(perms) > 24 {
 			rnd.Shuffle(len(perms), func(i, j int) { perms[i], perms[j] = perms[j], perms[i] })
-			perms = perms[:kit.Pick(40, 400)]
+			if k := kit.Pick(40, 400); k < len(perms) {
+				perms = perms[:k]
+			}
 		}
 		for _, workers := range []uint{1, 2, 4} {
 			if !kit.Thorough() && workers == 2 && si%2 == int(kit.Seed())%2 {
